@@ -30,7 +30,7 @@ def run(chk):
     if env is None: return
     drv, impl = env
     rng = chk.rng
-    ngroups = 150 if chk.tier == "quick" else 3000
+    ngroups = 300 if chk.tier == "quick" else 3000
     nshuf = 4 if chk.tier == "quick" else 12
     solos = []; groups = []
     for g in range(ngroups):
